@@ -168,6 +168,7 @@ func (w *World) ifs(fn *ssa.Function) []ifInfo {
 // gatedBy: is the site gated by some If matching cond? Returns (gated, number of matching Ifs, detail).
 func (w *World) gatedBy(fn *ssa.Function, ifs []ifInfo, s Site, c Cond, loopAll ...bool) (bool, int, string) {
 	la := len(loopAll) > 0 && loopAll[0]
+	maySkip := len(loopAll) > 1 && loopAll[1]
 	matched := 0
 	var why []string
 	for _, ii := range ifs {
@@ -190,6 +191,16 @@ func (w *World) gatedBy(fn *ssa.Function, ifs []ifInfo, s Site, c Cond, loopAll 
 			why = append(why, pos+": check does not dominate the effect")
 			continue
 		}
+		if la {
+			// a per-element check: its loop runs before the effect, and no iteration gets around the check
+			if h, ok := iterationAlwaysPasses(fn, ii.b); !ok && !maySkip {
+				why = append(why, pos+": an iteration of the loop can avoid the per-element check")
+				continue
+			} else if h != nil && !h.Dominates(s.Block) {
+				why = append(why, pos+": the loop holding the per-element check does not dominate the effect")
+				continue
+			}
+		}
 		if reachFrom(fail, map[*ssa.BasicBlock]bool{ii.b: true})[s.Block] {
 			why = append(why, pos+": effect reachable from the failing edge of the check")
 			continue
@@ -202,6 +213,50 @@ func (w *World) gatedBy(fn *ssa.Function, ifs []ifInfo, s Site, c Cond, loopAll 
 	return false, matched, strings.Join(why, "; ")
 }
 
+// iterationAlwaysPasses: blk lies in a natural loop and every path from the start of the loop body back to the loop
+// header goes through blk. Returns the loop header (nil when blk is in no loop, which LoopAll callers tolerate only if
+// dominance holds - handled by the caller through the ordinary reachability test).
+func iterationAlwaysPasses(fn *ssa.Function, blk *ssa.BasicBlock) (*ssa.BasicBlock, bool) {
+	var loop map[*ssa.BasicBlock]bool
+	var header *ssa.BasicBlock
+	for h, l := range naturalLoops(fn) {
+		if l[blk] && (loop == nil || len(l) < len(loop)) {
+			loop, header = l, h
+		}
+	}
+	if loop == nil {
+		return nil, true
+	}
+	if blk == header {
+		return header, true
+	}
+	seen := map[*ssa.BasicBlock]bool{}
+	escaped := false
+	var walk func(b *ssa.BasicBlock)
+	walk = func(b *ssa.BasicBlock) {
+		if seen[b] || b == blk || escaped {
+			return
+		}
+		seen[b] = true
+		for _, s := range b.Succs {
+			if !loop[s] {
+				continue
+			}
+			if s == header {
+				escaped = true
+				return
+			}
+			walk(s)
+		}
+	}
+	for _, s := range header.Succs {
+		if loop[s] && s != header {
+			walk(s)
+		}
+	}
+	return header, !escaped
+}
+
 type GateOpts struct {
 	MinSites     int
 	FailIsError  bool // additionally: every return reachable from the failing edge is a failure return
@@ -209,6 +264,7 @@ type GateOpts struct {
 	AnySiteReach bool // the effect must be REACHABLE from the failing edge of the check (best-effort semantics)
 	LoopAll      bool // the check sits in a loop over elements ("for all x: check(x)"): dominance is not required,
 	// only that the effect is unreachable from the failing edge without re-evaluating the check
+	LoopMaySkip bool // with LoopAll: some iterations legitimately do not evaluate the check (reviewed `continue` / `i > 0 &&`)
 }
 
 // Gate: every site of effect e in function fnKey is gated by every cond.
@@ -266,7 +322,7 @@ func (r *Report) Gate(key, fnKey string, e Effect, conds []Cond, o GateOpts) {
 	for _, c := range conds {
 		nOK := 0
 		for i, s := range sites {
-			ok, _, detail := w.gatedBy(fn, ifs, s, c, o.LoopAll)
+			ok, _, detail := w.gatedBy(fn, ifs, s, c, o.LoopAll, o.LoopMaySkip)
 			k := fmt.Sprintf("%s|%s|%s", key, fnKey, c.String())
 			if len(sites) > 1 {
 				k += fmt.Sprintf("#%d", i)
